@@ -5,5 +5,6 @@ CONSTANTS
   MaxSeq = 3
 INVARIANT T_Defining
 INVARIANT T_DomImpliesLU
+INVARIANT T_CrossOrth
 INVARIANT EmitC
 CHECK_DEADLOCK FALSE
